@@ -201,7 +201,17 @@ def class_methods(program, spec):
     cls = program.get(spec)
     if not isinstance(cls, ast.ClassDef):
         raise AnchorError("anchor vanished: %s is not a class" % spec)
-    return [n for n in cls.body if isinstance(n, ast.FunctionDef)]
+    out = []
+    for n in list(cls.body):
+        if isinstance(n, ast.FunctionDef):
+            # (fetched through the program: helpers the reference tree did
+            # not have are nested virtually, and reports about a method that
+            # now delegates to them are withheld like for any other anchor)
+            try:
+                out.append(program.get("%s.%s" % (spec, n.name)))
+            except AnchorError:
+                out.append(n)
+    return out
 
 
 def _as_expression(stmts):
